@@ -42,7 +42,9 @@ MANIFEST = dict(
          "all mode bits, -p on/off, forward and reverse naming, one or several sources; 2-4 receivers as threads of "
          "one process with errors on several connections, as in rpdcp); the client's bytes, the "
          "replies and the destination tree are compared with the models and, independently, the destination with "
-         "the source (specification), which yields the failing tree as replay.",
+         "the source (specification), which yields the failing tree as replay.  Every run covers a fixed list of classes "
+         "(sizes, names, modes, times, deep/wide/empty directories, conflicts, overwrites, destinations, host names with "
+         "dots); the static objects and process-wide calls of pcp_server.c are compared with Pcp/Statics.lean.",
     design_ref="DESIGN.md section 5 C11/C12",
     note="Lean 4.33 kernel; axioms propext/Classical.choice/Quot.sound at most (audited per theorem every run); "
          "hand-written models tied to pcp_client.c/pcp_server.c by differential execution of the real sources built "
